@@ -165,3 +165,33 @@ PROPS["C10"] = {
                   "Pool geometry (a buffer exists for every legal length) is proved under C19 and exercised here with small budgets and non-bucket limits.",
     "assumptions": ["transport reads return at least one byte unless EOF", "payload_read_timeout not reached (timeouts: C20)"],
 }
+
+PROPS["C15"] = {
+    "theorems": ["Narwhal.Theorems.C15"],
+    "audit_files": ["Narwhal/Model/Writer.lean"],
+    "expect_theorems": ["Narwhal.Writer.writeAll_prefix", "Narwhal.Writer.writeAll_terminates", "Narwhal.Writer.iov_layout",
+                        "Narwhal.Writer.C15_bytes_are_frames", "Narwhal.Writer.trySend_total", "Narwhal.Writer.C15_non_interference",
+                        "Narwhal.Writer.C15_overflow_closes_self"],
+    "suites": {"writer": {"kind": "lines", "nvh_suite": "writer", "driver_suite": "writer", "op_prefixes": ["frames", "wav", "overflow"],
+                          "cases": {"quick": 60, "thorough": 1500}, "oracle_tags": ["C15"]}},
+    "rule": "bursts of 1..300 mixed frames (with/without payload, payload sizes 1..257 incl. LF bytes) injected through the real ConnTx of a real "
+            "connection whose pipe holds 1, 7, 64, 4096 or 2^20 bytes and whose peer reads 1/3/64/64K bytes at a time; queue overflow cases; and "
+            "write_all_vectored against a scripted vectored writer (accept sizes 0..7 per call, empty slices); distinct = distinct received byte strings",
+    "trusted_base": ["modelled, not verified: outbound half of common/src/conn.rs run_connection_loop, prepare_iovs (unsafe raw-pointer code: functional "
+                     "output covered by the suite, memory safety not proved), util/src/io.rs",
+                     "IoSlice::advance_slices, async-channel FIFO order, tokio duplex"],
+    "level_text": "Proved in Lean for every batch, every batching of the queue (<= MAX_IOVS) and every sequence of accepted write sizes: the bytes that "
+                  "reach the transport are a prefix of, and on completion exactly, the concatenation of the frames' renderings (header, payload, LF) in "
+                  "queue order; a 0-byte accept is an error; sending never blocks: a full queue requests the close of that connection only, and what "
+                  "routing does to one connection is independent of every other connection's queue. Tied by driving real connections through tiny pipes.",
+    "level_note": "Known findings (DESIGN.md D21, D25): a writer blocked inside a write never polls its close branch, and writers wait for message-pool "
+                  "buffers while holding a partial batch; both are about runtime blocking that this model does not exhibit and are recorded, not proved absent.",
+    "assumptions": ["the transport eventually accepts bytes (stalled-forever transports: known finding D21)"],
+}
+
+# C02 also rests on the outbound path: an enqueued MESSAGE is written whole and in order, or the receiver is closed (C15 theorems + writer suite)
+PROPS["C02"]["theorems"] = ["Narwhal.Theorems.C01", "Narwhal.Theorems.C15"]
+PROPS["C02"]["expect_theorems"] += ["Narwhal.Writer.C15_bytes_are_frames", "Narwhal.Writer.trySend_total"]
+PROPS["C02"]["audit_files"] += ["Narwhal/Model/Writer.lean"]
+PROPS["C02"]["suites"]["writer"] = {"kind": "lines", "nvh_suite": "writer", "driver_suite": "writer", "op_prefixes": ["frames", "wav", "overflow"],
+                                    "cases": {"quick": 60, "thorough": 1500}, "oracle_tags": ["C15", "C02"]}
